@@ -8,6 +8,7 @@
 from __future__ import annotations
 
 import asyncio
+import copy
 import logging
 from abc import ABC
 from collections import deque
@@ -881,7 +882,23 @@ class _BaseHOFormulaBuilder(ABC, Generic[FormulaEngineT, QuantityT]):
         self._steps.append((TokenType.COMPONENT_METRIC, engine))
         self._create_method: Callable[[float], QuantityT] = create_method
 
+    def _copy(self) -> Self:
+        """Return a new builder holding a copy of the steps pushed so far."""
+        new = copy.copy(self)
+        new._steps = self._steps.copy()  # pylint: disable=protected-access
+        return new
+
     def _push(
+        self,
+        oper: str,
+        other: Self | FormulaEngineT | QuantityT | float,
+    ) -> Self:
+        # Build the result on a copy: a builder may be used as a sub-expression any
+        # number of times (`b = x + y; b * b`) and must not be changed by the formulas
+        # derived from it.
+        return self._copy()._push_in_place(oper, other)
+
+    def _push_in_place(
         self,
         oper: str,
         other: Self | FormulaEngineT | QuantityT | float,
@@ -1022,10 +1039,11 @@ class _BaseHOFormulaBuilder(ABC, Generic[FormulaEngineT, QuantityT]):
             A formula builder that can take further expressions, or can be built
                 into a formula engine.
         """
-        self._steps.appendleft((TokenType.OPER, "("))
-        self._steps.append((TokenType.OPER, ")"))
-        self._steps.append((TokenType.OPER, "consumption"))
-        return self
+        result = self._copy()
+        result._steps.appendleft((TokenType.OPER, "("))
+        result._steps.append((TokenType.OPER, ")"))
+        result._steps.append((TokenType.OPER, "consumption"))
+        return result
 
     def production(
         self,
@@ -1039,10 +1057,11 @@ class _BaseHOFormulaBuilder(ABC, Generic[FormulaEngineT, QuantityT]):
             A formula builder that can take further expressions, or can be built
                 into a formula engine.
         """
-        self._steps.appendleft((TokenType.OPER, "("))
-        self._steps.append((TokenType.OPER, ")"))
-        self._steps.append((TokenType.OPER, "production"))
-        return self
+        result = self._copy()
+        result._steps.appendleft((TokenType.OPER, "("))
+        result._steps.append((TokenType.OPER, ")"))
+        result._steps.append((TokenType.OPER, "production"))
+        return result
 
 
 class HigherOrderFormulaBuilder(
